@@ -22,7 +22,11 @@ def concrete(kind, rnd):
     if kind == "fixable":
         a, b = pairs.near_threshold(rnd, rnd.choice((4.5, 7.0)), (0.02, 0.25))
         return rnd.choice([(a, b), (pairs.hexs(a), pairs.hexs(b)), (f"rgb({a[0]}, {a[1]}, {a[2]})", b), (list(a), list(b)), (a, list(b)),
-                           (tuple(str(v) for v in a), b)])
+                           (tuple(str(v) for v in a), b),
+                           # informal spellings the parser accepts (whatever the pair API reads, the bulk API reads the same way)
+                           (f"({a[0]};{a[1]};{a[2]})", b), (f"({a[0]}\t{a[1]}\t{a[2]})", pairs.hexs(b)), (f"({a[0]}/{a[1]}/{a[2]})", b),
+                           (f"{a[0]}, {a[1]}, {a[2]}", f"({b[0]}, {b[1]}, {b[2]})"), (f"{a[0]} {a[1]} {a[2]}", b), (f"({a[0]},{a[1]},{a[2]})", f"{b[0]};{b[1]};{b[2]}"),
+                           (f"rgb({a[0]} {a[1]} {a[2]})", f"RGB( {b[0]} , {b[1]} , {b[2]} )")])
     if kind == "between":       # between the large-text and normal-text requirement: the size flag decides
         a, b = pairs.near_threshold(rnd, 4.5, (0.05, 0.3))
         return (pairs.hexs(a), pairs.hexs(b))
